@@ -159,9 +159,19 @@ fn coq_ires(r: &Option<Result<Image, String>>) -> (String, Value) {
         None => ("IPanic".to_string(), json!("panic")),
         Some(Err(e)) => ("IErr".to_string(), json!({"err": e.chars().take(80).collect::<String>()})),
         Some(Ok(img)) => {
-            let pix: Vec<String> = img.iter().map(|p| coq_rgba(*p)).collect();
-            let n = pix.len();
-            (format!("(IOk {} {} {})", img.height(), img.width(), clist(pix)), json!({"ok": [img.height(), img.width(), n]}))
+            // reading the pixels goes through the crate (iter over the shape): also an observation
+            let img = img.clone();
+            let read = catch(move || {
+                let pix: Vec<String> = img.iter().map(|p| coq_rgba(*p)).collect();
+                (img.height(), img.width(), pix)
+            });
+            match read {
+                Some((h, w, pix)) => {
+                    let n = pix.len();
+                    (format!("(IOk {} {} {})", h, w, clist(pix)), json!({"ok": [h, w, n]}))
+                }
+                None => ("IPanic".to_string(), json!("panic reading the pixels")),
+            }
         }
     }
 }
@@ -364,26 +374,43 @@ fn coq_fres(r: &Option<Result<Face, String>>) -> (String, Value) {
     match r {
         None => ("FPanic".to_string(), json!("panic")),
         Some(Err(e)) => ("FErr".to_string(), json!({"err": e.chars().take(60).collect::<String>()})),
-        Some(Ok(f)) => (format!("(FOk {})", coq_face(f)), json!({"ok": f.to_string()})),
+        Some(Ok(f)) => (format!("(FOk {})", coq_face(f)), json!({"ok": coq_face(f)})),
     }
+}
+
+/// Display of a face, as an observation: None = it panicked
+fn print_face(f: &Face) -> Option<String> {
+    let f = *f;
+    catch(move || f.to_string())
 }
 
 fn run_face(input: &Value) -> Case {
     let f = Face::new(rgba_of(&input["fg"]), rgba_of(&input["bg"]), attrs_of(input["attrs"].as_u64().unwrap_or(0)));
-    let printed = f.to_string();
-    let p2 = printed.clone();
-    let reparsed = catch(move || Face::from_str(&p2).map_err(|e| e.to_string()));
-    let ser = serde_json::to_value(f).unwrap_or(Value::Null);
-    let s2 = ser.clone();
-    let back = catch(move || serde_json::from_value::<Face>(s2).map_err(|e| e.to_string()));
+    // Display, FromStr of it; a panic of Display shows as an empty text whose re-parse "panicked"
+    let printed_opt = print_face(&f);
+    let printed = printed_opt.clone().unwrap_or_default();
+    let reparsed = match &printed_opt {
+        Some(p) => {
+            let p2 = p.clone();
+            catch(move || Face::from_str(&p2).map_err(|e| e.to_string()))
+        }
+        None => None,
+    };
+    // Serialize, Deserialize; likewise
+    let ser_opt = catch(move || serde_json::to_value(f).ok()).flatten();
+    let ser = ser_opt.clone().unwrap_or(Value::Null);
+    let back = match ser_opt {
+        Some(s2) => catch(move || serde_json::from_value::<Face>(s2).map_err(|e| e.to_string())),
+        None => None,
+    };
     let (rc, rj) = coq_fres(&reparsed);
     let (bc, bj) = coq_fres(&back);
     let mut j = input.clone();
-    j["impl"] = json!({"printed": printed, "reparsed": rj, "back": bj});
+    j["impl"] = json!({"printed": printed_opt, "reparsed": rj, "back": bj});
     Case {
         coq: format!("CFace {} {} {} {} {}", coq_face(&f), coq_str(&printed), rc, j_coq(&j_from_value(&ser)), bc),
         json: j,
-        tags: vec!["kind=face".to_string()],
+        tags: vec!["kind=face".to_string(), format!("face.display={}", if printed_opt.is_some() { "ok" } else { "panic" })],
         nontrivial: !printed.is_empty(),
     }
 }
@@ -418,12 +445,15 @@ fn run_face_parse(input: &Value) -> Case {
     face_oracle(&s, &mut tbl);
     // what the parser produced, printed and parsed again
     let (printed, reparsed) = match &r {
-        Some(Ok(f)) => {
-            let p = f.to_string();
-            face_oracle(&p, &mut tbl);
-            let p2 = p.clone();
-            (p, catch(move || Face::from_str(&p2).map_err(|e| e.to_string())))
-        }
+        Some(Ok(f)) => match print_face(f) {
+            Some(p) => {
+                face_oracle(&p, &mut tbl);
+                let p2 = p.clone();
+                (p, catch(move || Face::from_str(&p2).map_err(|e| e.to_string())))
+            }
+            // Display panicked: an observation (empty text, "re-parse" panicked)
+            None => (String::new(), None),
+        },
         _ => (String::new(), Some(Err(String::new()))),
     };
     let (rc, rj) = coq_fres(&r);
@@ -456,9 +486,12 @@ fn coq_sres(r: &Option<Result<Size, String>>) -> (String, Value) {
 fn run_size(input: &Value) -> Case {
     let h: usize = input["h"].as_str().and_then(|s| s.parse().ok()).unwrap_or(0);
     let w: usize = input["w"].as_str().and_then(|s| s.parse().ok()).unwrap_or(0);
-    let ser = serde_json::to_value(Size::new(h, w)).unwrap_or(Value::Null);
-    let s2 = ser.clone();
-    let back = catch(move || serde_json::from_value::<Size>(s2).map_err(|e| e.to_string()));
+    let ser_opt = catch(move || serde_json::to_value(Size::new(h, w)).ok()).flatten();
+    let ser = ser_opt.clone().unwrap_or(Value::Null);
+    let back = match ser_opt {
+        Some(s2) => catch(move || serde_json::from_value::<Size>(s2).map_err(|e| e.to_string())),
+        None => None,
+    };
     let (bc, bj) = coq_sres(&back);
     let mut j = input.clone();
     j["impl"] = bj;
@@ -513,32 +546,26 @@ fn coq_key(k: &Key) -> String {
     let name = match k.name {
         KeyName::Char(c) => format!("(KChar {})", c as u32),
         KeyName::F(i) => format!("(KF {})", i),
-        other => {
-            let d = format!("{:?}", other);
-            let n = match d.as_str() {
-                "backspace" => "KBackspace",
-                "delete" => "KDelete",
-                "insert" => "KInsert",
-                "down" => "KDown",
-                "end" => "KEnd",
-                "enter" => "KEnter",
-                "esc" => "KEsc",
-                "home" => "KHome",
-                "left" => "KLeft",
-                "pagedown" => "KPageDown",
-                "pageup" => "KPageUp",
-                "right" => "KRight",
-                "tab" => "KTab",
-                "up" => "KUp",
-                "mouseleft" => "KMouseLeft",
-                "mousemiddle" => "KMouseMiddle",
-                "mousemove" => "KMouseMove",
-                "mouseright" => "KMouseRight",
-                "mousewheeldown" => "KMouseWheelDown",
-                _ => "KMouseWheelUp",
-            };
-            n.to_string()
-        }
+        KeyName::Backspace => "KBackspace".to_string(),
+        KeyName::Delete => "KDelete".to_string(),
+        KeyName::Insert => "KInsert".to_string(),
+        KeyName::Down => "KDown".to_string(),
+        KeyName::End => "KEnd".to_string(),
+        KeyName::Enter => "KEnter".to_string(),
+        KeyName::Esc => "KEsc".to_string(),
+        KeyName::Home => "KHome".to_string(),
+        KeyName::Left => "KLeft".to_string(),
+        KeyName::PageDown => "KPageDown".to_string(),
+        KeyName::PageUp => "KPageUp".to_string(),
+        KeyName::Right => "KRight".to_string(),
+        KeyName::Tab => "KTab".to_string(),
+        KeyName::Up => "KUp".to_string(),
+        KeyName::MouseLeft => "KMouseLeft".to_string(),
+        KeyName::MouseMiddle => "KMouseMiddle".to_string(),
+        KeyName::MouseMove => "KMouseMove".to_string(),
+        KeyName::MouseRight => "KMouseRight".to_string(),
+        KeyName::MouseWheelDown => "KMouseWheelDown".to_string(),
+        KeyName::MouseWheelUp => "KMouseWheelUp".to_string(),
     };
     format!("(Key {} {})", name, bits)
 }
@@ -547,7 +574,10 @@ fn coq_cres(r: &Option<Result<KeyChord, String>>) -> (String, Value) {
     match r {
         None => ("CPanic".to_string(), json!("panic")),
         Some(Err(_)) => ("CErr".to_string(), json!("err")),
-        Some(Ok(c)) => (format!("(COk {})", clist(c.keys().iter().map(coq_key))), json!({"ok": c.to_string()})),
+        Some(Ok(c)) => {
+            let keys = clist(c.keys().iter().map(coq_key));
+            (format!("(COk {})", keys), json!({ "ok": keys }))
+        }
     }
 }
 
@@ -583,11 +613,18 @@ fn run_chord(input: &Value) -> Case {
     let mut tbl = vec![];
     match parsed {
         Some(chord) => {
-            let printed = chord.to_string();
+            // Display and Serialize are observations too: a panic shows as an empty text / a null document
+            // whose deserialisation "panicked"
+            let c2 = chord.clone();
+            let printed = catch(move || c2.to_string()).unwrap_or_default();
             lower_pairs(&printed, &mut tbl);
-            let ser = serde_json::to_value(&chord).unwrap_or(Value::Null);
-            let s2 = ser.clone();
-            let back = catch(move || serde_json::from_value::<KeyChord>(s2).map_err(|e| e.to_string()));
+            let c3 = chord.clone();
+            let ser_opt = catch(move || serde_json::to_value(&c3).ok()).flatten();
+            let ser = ser_opt.clone().unwrap_or(Value::Null);
+            let back = match ser_opt {
+                Some(s2) => catch(move || serde_json::from_value::<KeyChord>(s2).map_err(|e| e.to_string())),
+                None => None,
+            };
             let (bc, bj) = coq_cres(&back);
             let mut j = input.clone();
             j["impl"] = json!({"printed": printed, "back": bj});
@@ -1583,29 +1620,55 @@ pub fn batch(inputs: &[Value]) -> Batch {
         .collect();
     let results = run_in_children(&docs);
     let mut next = 0usize;
+    // Every case runs under a guard: the in-flight input is written to current_case.json first (so that an
+    // abort still yields a replay) and a panic anywhere in the harness-side use of the crate (building test
+    // values, reading results, printing observations) becomes a failing case instead of killing the run.
+    let dir = std::env::var("SNT_HARNESS_OUT").ok();
     let cases: Vec<Case> = inputs
         .iter()
-        .map(|input| match input["kind"].as_str().unwrap_or("") {
-            "image" => {
-                let r = results.get(next).cloned().unwrap_or(None);
-                next += 1;
-                run_image(input, &r)
+        .map(|input| {
+            if let Some(d) = &dir {
+                let _ = std::fs::write(format!("{}/current_case.json", d), input.to_string());
             }
-            "image_rt" => run_image_rt(input),
-            "image_ch" => run_image_ch(input),
-            "face" => run_face(input),
-            "face_parse" => run_face_parse(input),
-            "size" => run_size(input),
-            "size_de" => run_size_de(input),
-            "chord" => run_chord(input),
-            "chord_de" => run_chord_de(input),
-            _ => {
+            let kind = input["kind"].as_str().unwrap_or("");
+            let child_line = if kind == "image" || kind == "view" {
                 let r = results.get(next).cloned().unwrap_or(None);
                 next += 1;
-                view_case(input, &vres_of_line(&r), &r)
+                r
+            } else {
+                None
+            };
+            let run = || match kind {
+                "image" => run_image(input, &child_line),
+                "image_rt" => run_image_rt(input),
+                "image_ch" => run_image_ch(input),
+                "face" => run_face(input),
+                "face_parse" => run_face_parse(input),
+                "size" => run_size(input),
+                "size_de" => run_size_de(input),
+                "chord" => run_chord(input),
+                "chord_de" => run_chord_de(input),
+                _ => view_case(input, &vres_of_line(&child_line), &child_line),
+            };
+            match std::panic::catch_unwind(std::panic::AssertUnwindSafe(run)) {
+                Ok(case) => case,
+                Err(_) => {
+                    let mut j = input.clone();
+                    j["impl"] = json!("panic in a crate call outside the observed ones (building the test value, reading or printing a result)");
+                    // a case that fails both components: the model never panics
+                    Case {
+                        coq: "CImage JNull IPanic".to_string(),
+                        json: j,
+                        tags: vec![format!("kind={}", kind), "harness.guard=panic".to_string()],
+                        nontrivial: true,
+                    }
+                }
             }
         })
         .collect();
+    if let Some(d) = &dir {
+        let _ = std::fs::remove_file(format!("{}/current_case.json", d));
+    }
     Batch {
         prop: "C19",
         coq_import: "Corr.C19Corr",
